@@ -22,6 +22,10 @@ type Mutex struct {
 // Lock blocks until the mutex is free.
 func (m *Mutex) Lock() {
 	s := S
+	if s == nil || s.cur == nil {
+		m.locked = true
+		return
+	}
 	t := s.cur
 	s.op("lock", func() bool { return !m.locked }, func() {
 		m.locked = true
@@ -33,6 +37,10 @@ func (m *Mutex) Lock() {
 // Unlock releases the mutex.
 func (m *Mutex) Unlock() {
 	s := S
+	if s == nil || s.cur == nil {
+		m.locked = false
+		return
+	}
 	t := s.cur
 	s.op("unlock", alwaysEnabled, func() {
 		if !m.locked {
